@@ -261,6 +261,8 @@ K('arc2_angle_quadrant', ARC2 + '_angle_quadrant', [S('angle', 'arcangle')], 'N'
 K('arc2_move', ARC2 + 'move', [p('a', A2), p('mv', W2)], 'Arc2S', 'Arc', ['C02'])
 K('arc2_rotate', ARC2 + 'rotate', [p('a', A2), S('angle', 'angle_generic'), p('o', P2)],
   'Arc2S', 'Arc', ['C02'])
+K('arc2_reflect', ARC2 + 'reflect', [p('a', A2), p('n', W2, 'unit'), p('o', P2)], 'Arc2S',
+  'Arc', ['C02'], tol_factor=100000)
 K('arc2_scale', ARC2 + 'scale', [p('a', A2), S('factor', 'posfactor'), p('o', P2)], 'Arc2S',
   'Arc', ['C02'])
 K('arc2_point_at', ARC2 + 'point_at', [p('a', A2), S('t', 'unitinterval')], 'V2', 'Arc',
@@ -293,6 +295,13 @@ K('arc3_point_at', ARC3 + 'point_at', [p('a', A3), S('t', 'unitinterval')], 'V3'
 K('arc3_min', ARC3 + 'min', [p('a', A3)], 'V3', 'Arc', ['C10'])
 K('arc3_max', ARC3 + 'max', [p('a', A3)], 'V3', 'Arc', ['C10'])
 K('arc3_move', ARC3 + 'move', [p('a', A3), p('mv', W3)], 'Arc3S', 'Arc', ['C02'])
+K('arc3_rotate', ARC3 + 'rotate',
+  [p('a', A3), p('axis', W3, 'nonzero'), S('angle', 'angle'), p('o', P3)], 'Arc3S', 'Arc',
+  ['C02'])
+K('arc3_rotate_xy', ARC3 + 'rotate_xy', [p('a', A3), S('angle', 'angle'), p('o', P3)],
+  'Arc3S', 'Arc', ['C02'])
+K('arc3_reflect', ARC3 + 'reflect', [p('a', A3), p('n', W3, 'unit'), p('o', P3)], 'Arc3S',
+  'Arc', ['C02'], tol_factor=100000)
 K('arc3_scale', ARC3 + 'scale', [p('a', A3), S('factor', 'posfactor'), p('o', P3)], 'Arc3S',
   'Arc', ['C02'])
 K('arc3_closest_point', ARC3 + 'closest_point', [p('a', A3), p('q', P3)], 'V3', 'Arc',
